@@ -1131,7 +1131,9 @@ def make_endpoint(world: World, node: str, worker: Optional[int] = None, gen: in
             continue        # added to the running brokers by the "add_late_mw" op
         if ms.get("retry") is not None:
             r = ms["retry"]
-            mws.append(SimpleRetryMiddleware(
+            if cfg.get("retry_sub"):
+                world.fired("retry_middleware_subclassed")
+            mws.append((_ProjectRetry if cfg.get("retry_sub") else SimpleRetryMiddleware)(
                 default_retry_count=r.get("count", 3),
                 default_retry_label=r.get("label", False),
                 no_result_on_retry=r.get("no_result_on_retry", True),
@@ -1204,6 +1206,10 @@ class _Stamper(TaskiqMiddleware):
         else:
             await asyncio.sleep(0)
         return message
+
+
+class _ProjectRetry(SimpleRetryMiddleware):
+    """A deployment's own subclass of the stock retry middleware: it defines no hook itself, every hook is inherited."""
 
 
 class _LabelAdder(TaskiqMiddleware):
@@ -1797,7 +1803,7 @@ def _arm_op(world: World, op: dict) -> None:
                 for ms in world.config.get("middlewares", []):
                     if ms.get("late") and ms.get("retry") is not None:
                         r = ms["retry"]
-                        br.add_middlewares(SimpleRetryMiddleware(default_retry_count=r.get("count", 3), default_retry_label=r.get("label", False),
+                        br.add_middlewares((_ProjectRetry if world.config.get("retry_sub") else SimpleRetryMiddleware)(default_retry_count=r.get("count", 3), default_retry_label=r.get("label", False),
                                                                  no_result_on_retry=r.get("no_result_on_retry", True)))
         elif kind == "reregister":
             # the same task name is registered again (on every live endpoint) with a function of the other kind (sync <-> async)
